@@ -305,6 +305,8 @@ func shapeMain(root, out string) error {
 	facts["struct"] = map[string]bool{
 		// the fresh transport is closed after ac.mu has been released (the close callback needs the lock)
 		"rt_unlock_before_close": stmtBefore(body(rtf), "ac.mu.Unlock", "newTr.Close"),
+		// the pause between two connection attempts ends with the connection's context
+		"rt_backoff_ctx": hasSelectWith(body(rtf), "<-timer.C", "<-ac.ctx.Done("),
 		// every goroutine the connection's wait group counts is added before it is started
 		"wg_add_before_go": goPrecededByAdd(body(hr), "cc.wg.Add") && goPrecededByAdd(body(lfr), "cc.wg.Add") && goPrecededByAdd(body(nac), "cc.wg.Add"),
 		// a handshake which is refused after the upgrade gives the socket back
